@@ -293,6 +293,23 @@ P_C11_Refs(doc, pickles, ix) == \A j \in 1..Len(pickles) : LET p == pickles[j] I
 ErrKinds == {"unexpected", "eof", "tag", "lang", "ragged"}
 P_C01_Outcome(errs, cap) == Len(errs) <= cap /\ \A j \in 1..Len(errs) : errs[j].kind \in ErrKinds /\ errs[j].line >= 1
 P_C14_Once(errs) == NoDup(errs)
+(* "A document is rejected exactly when some line (or the end of file) cannot continue a sentence of the grammar, a tag line outside a doc
+   string contains a tag with whitespace, a language header names an unknown dialect, or a table is ragged."  Decided WITHOUT the parser
+   table: the kinds of the lines (Gherkin!KindOf in the matcher state reached there) are run through the grammar's NFA; the faults are read
+   off the lines and the delivered tokens.  run = Gherkin!RunAll(lines, ...) supplies only the matcher states. *)
+KindsOfRun(lines, run) == [j \in 1..Len(lines) |-> IF j <= Len(run.sts) THEN KindOf(lines[j], run.sts[j].ms) ELSE "#Other"]
+TagFault(lines, run) == \E j \in 1..Min({Len(lines), Len(run.sts)}) : run.sts[j].ms.sep = <<>> /\ "exc" \in DOMAIN TagLine(lines[j])
+LangFault(lines, run) == \E j \in 1..Min({Len(lines), Len(run.sts)}) : run.sts[j].st = <<>> /\ LangName(lines[j]) # <<>> /\ ~Known(LangName(lines[j]))
+\* tables read off the delivered tokens: maximal runs of TableRow tokens (comments and blank lines may stand between rows)
+RECURSIVE RaggedFrom(_, _, _)
+RaggedFrom(toks, k, width) == IF k > Len(toks) THEN FALSE
+   ELSE IF toks[k].type = "TableRow" THEN (IF width >= 0 /\ Len(toks[k].items) # width THEN TRUE ELSE RaggedFrom(toks, k + 1, Len(toks[k].items)))
+   ELSE IF toks[k].type \in {"Comment", "Empty"} THEN RaggedFrom(toks, k + 1, width)
+   ELSE RaggedFrom(toks, k + 1, 0 - 1)
+RaggedFault(toks) == RaggedFrom(toks, 1, 0 - 1)
+P_C14_Iff(lines, run, rejected) ==
+   rejected <=> (~IsSentence(KindsOfRun(lines, run)) \/ TagFault(lines, run) \/ LangFault(lines, run) \/ RaggedFault(run.toks))
+
 \* ------------------------------------------------------------------------------------------- C18
 (* "the AST builder receives exactly one token per physical line, in source order and with that line's number, followed by
    exactly one end-of-file token" *)
